@@ -73,7 +73,13 @@ def apply_contract(ip, contract, info, args, kwargs):
     env['ghost'] = NS(ip.state.ghost)
     env['result'] = result
     for label, fn in contract.ensures.items():
-        ctx.assume(ops.bterm(_b(call_clause(fn, env))))
+        try:
+            g = ops.bterm(_b(call_clause(fn, env)))
+        except (AttributeError, KeyError, Unsupported):
+            # the clause speaks about ghost state of the callee's own proof: not usable here (assuming less is sound)
+            ip.ctx.notes.append('postcondition %s of %s not usable at this call site' % (label, contract.qualname))
+            continue
+        ctx.assume(g)
     # further instances of the callee's universally quantified postconditions (chosen by the caller's contract)
     for name in contract.skolems:
         for inst in ctx.instances.get(name, []):
@@ -82,7 +88,10 @@ def apply_contract(ip, contract, info, args, kwargs):
             import inspect as _insp
             for label, fn in contract.ensures.items():
                 if name in _insp.signature(fn).parameters:
-                    ctx.assume(ops.bterm(_b(call_clause(fn, env2))))
+                    try:
+                        ctx.assume(ops.bterm(_b(call_clause(fn, env2))))
+                    except (AttributeError, KeyError, Unsupported):
+                        continue
     return result
 
 
